@@ -37,7 +37,7 @@ reg("C16", ["c16_crc.c"],
          "length 0..64 (random, all-zero, all-ones, mostly-zero, zero words in front / behind; split at every word); "
          "'wstep' = the word variant's update step: all 65536 words from a state, alone and next to a zero word (32 "
          "states incl. 0, 1, ffff in quick, every fourth state in thorough); 'long' = buffers up to 200003 octets. "
-         "A signature is (generator, state) or (generator, length, init, fill mode); every signature "
+         "Every random buffer is also run with empty parts given as (NULL, 0), alone and in the middle of a split. A signature is (generator, state) or (generator, length, init, fill mode); every signature "
          "is non-trivial (each compares ufw output with the reference).",
     exhaustive={"quick": "all 2^24 (state, octet) update steps",
                 "thorough": "all 2^24 update steps and all 2^32 (state, two-octet buffer) pairs"})
@@ -60,7 +60,7 @@ reg("C19", ["c19_ring.c"],
          "init, every operation (put a, put b, get, clear, override on/off) is executed from every reached "
          "(head, tail, override, data[], model queue) state until no new state appears; after each transition "
          "size/empty/full and both iterators are compared with the queue model. 'history': seeded random histories "
-         "with unique element ids at capacities 1..64. A signature is a distinct reached (implementation state, "
+         "with unique element ids at capacities 1..64 (override mode switched on with any non-zero value: 1, 2, 0x80, 2^31 ...). A signature is a distinct reached (implementation state, "
          "queue) pair or a (history unit, index); evaluations counts transitions/operations executed.",
     exhaustive={"quick": "all reachable (implementation state, queue) pairs for capacities 1..4 over a two-value alphabet",
                 "thorough": "all reachable (implementation state, queue) pairs for capacities 1..4 over a two-value alphabet"})
@@ -209,7 +209,7 @@ reg("C11", ["c11_pcrash.c"], level="fault_enumeration",
          "store, store_part, reset, validate, fetch, fetch_part fails (moves nothing and reports 0), transfers one "
          "octet short, or moves nothing and reports (size_t)-1, for every k; in every second of these runs the instance "
          "has validated its medium before the operation and validates it again after the fault (same verdict as a "
-         "fresh instance required). 'big': data sizes 300, 65536, 65539 with "
+         "fresh instance required); faults also on images with a zero tail and on the all-zero image. 'big': data sizes 300, 65536, 65539 with "
          "auxiliary buffers 4096/65535/65536/size+1 (tears sampled around the 8- and 16-bit boundaries); 'manyreads': crash images of stores and partial stores at 33000..70000 octets with no auxiliary buffer or one of 1-2 octets, where a checksum over the medium takes tens of thousands of accesses (writes recorded only, no fault injection). A signature is a (configuration, aux size) pair; evaluations counts crash images judged plus "
          "fault positions injected.",
     assumptions=["a torn write leaves a prefix of its octets on the medium; writes are not reordered",
@@ -236,10 +236,12 @@ reg("C01", ["c01_typed.c"],
 RT_FAMILY = ("tables from the small-scope family (seeded by index): 1-3 areas with bases from {0,1,5,0x100,0x7ffe,0xfff8,"
              "0x7ffffff0,0xffffff00}, sizes 1-8 words (one table in six has one area of 18-48 words densely packed with "
              "up to 46 registers, one in four an area left without registers on purpose, mostly joined to its "
-             "predecessor, and a third of those a mere reservation of addresses with neither callbacks nor memory; the "
-             "first twenty units of C02, C03 and C05 and the first twenty descriptions of every C04 unit use curated "
+             "predecessor, a third of those a mere reservation of addresses with neither callbacks nor memory, a fifth an "
+             "area of size zero; every second callback-backed area written field by field also carries a memory "
+             "pointer of its own that its callbacks scribble over; the "
+             "first twenty-four units of C02, C03 and C05 and the first twenty-four descriptions of every C04 unit use curated "
              "layouts instead: register-less areas behind, in front of and between populated ones, long dense areas, "
-             "reserved windows at address 0 and between populated areas, everything adjacent; every second "
+             "reserved windows at address 0 and between populated areas, zero-sized areas on the seams, everything adjacent; every second "
              "table is written with the REG_* / MAKE_*_AREA macros of register-table.h), gaps {0,0,1,3}; flags RW / "
              "read-only / write-only / skip-defaults; memory- or callback-backed "
              "(some callback areas without write callback); 16/32/64-bit unsigned, signed and float registers at every "
@@ -272,7 +274,7 @@ reg("C04", ["c04_init.c"],
          "no areas, two areas swapped, equal bases, overlap by one word, exact adjacency, a register straddling its "
          "area's end, a register moved anywhere from two words below the first area to two beyond the last (holes, "
          "gaps), duplicate address, two registers swapped, overlap by one word, default just outside the constraint or "
-         "a non-finite float default, no registers at all, default loading of an area switched (skip-defaults, no "
+         "a non-finite float default, a range with its limits exchanged, no registers at all, default loading of an area switched (skip-defaults, no "
          "write callback). 128 units x 2500 descriptions (quick), 1200 x 20000 (thorough). 'top': 80 well-formed descriptions whose "
          "last area ends exactly at 2^32 (sizes 1-16, alone or behind another area, with and without a register on the "
          "last words) - refused by the library today, a recorded known finding. A signature is the hash of "
@@ -331,7 +333,8 @@ reg("C08", ["c08_regp_emit.c"],
          "word size, so that the header checksum takes every 16-bit value about once. Each emission is compared "
          "octet for octet with the reference (the emitter's sink is chunk- or octet-style, takes all or 1, 3, 7, 64 octets per call, and every fourth "
          "emission meets one sink call that is interrupted with EAGAIN / EINTR - an emission that reports failure then "
-         "is not judged; allocators are of the generic or the slab type, alternately) "
+         "is not judged; the request frame handed to the response functions carries the instance's word size or the other "
+         "one; allocators are of the generic or the slab type, alternately) "
          "encoder and then received by a peer instance. A signature is a (unit, round); evaluations counts emissions.")
 
 reg("C07", ["c07_regp_corrupt.c"], level="fault_enumeration",
